@@ -39,8 +39,16 @@ func main() {
 	noEvidence := flag.Bool("no-evidence", false, "do not write evidence files (used for scratch trees)")
 	list := flag.Bool("list", false, "list registered properties")
 	manifest := flag.String("manifest", "", "write MANIFEST.json to this path and exit")
+	asbuilt := flag.String("asbuilt", "", "write the as-built description (markdown) to this path and exit")
 	flag.Parse()
 
+	if *asbuilt != "" {
+		if err := writeAsBuilt(*asbuilt); err != nil {
+			fmt.Println(err)
+			os.Exit(2)
+		}
+		return
+	}
 	if *manifest != "" {
 		if err := writeManifest(*manifest); err != nil {
 			fmt.Println(err)
